@@ -444,7 +444,9 @@ func (c convConcCase) Shrinks() []Case {
 	}
 	return out
 }
-func (c convConcCase) Key() string       { return fmt.Sprintf("%d goroutines × %d inputs", c.G, len(c.Inputs)) }
+func (c convConcCase) Key() string {
+	return fmt.Sprintf("%d goroutines × %d inputs", c.G, len(c.Inputs))
+}
 func (c convConcCase) Classes() []string { return []string{fmt.Sprintf("goroutines:%d", c.G)} }
 func (c convConcCase) Nontrivial() bool  { return true }
 
@@ -481,8 +483,8 @@ func init() {
 		},
 		{
 			Name: "split", Quick: 20000, Thorough: 300000,
-			New: func() Case { return &splitCase{} },
-			Gen: func(r *Rng, i int) Case { return splitCase{genC19Bytes(r)} },
+			New:  func() Case { return &splitCase{} },
+			Gen:  func(r *Rng, i int) Case { return splitCase{genC19Bytes(r)} },
 			Rule: "random byte strings over identifier/punctuation/Unicode-case alphabets plus an invalid-UTF-8 stream; compared: list of words or panic; non-trivial = at least two rune classes or invalid bytes; distinct by input",
 		},
 		{
@@ -499,8 +501,8 @@ func init() {
 		},
 		{
 			Name: "convert", Quick: 6000, Thorough: 60000,
-			New: func() Case { return &convCase{} },
-			Gen: func(r *Rng, i int) Case { return convCase{r.Intn(len(converters)), genC19Bytes(r)} },
+			New:  func() Case { return &convCase{} },
+			Gen:  func(r *Rng, i int) Case { return convCase{r.Intn(len(converters)), genC19Bytes(r)} },
 			Rule: "the six converters on the same input distribution; model = makeCase over the model's split with the library word transforms supplied per word; oracle: no panic, same result twice",
 		},
 	}})
